@@ -36,7 +36,10 @@ def _impl(c):
     try:
         if c['via'] == 'shape':
             kw = {} if c.get('n_cycles') is None else {'n_cycles': c['n_cycles']}
-            df = implutil.quiet(compute_shape_features, sig, c['fs'], tuple(c['f_range']), center_extrema=c['center'], find_extrema_kwargs=fek, **kw)
+            if c.get('n_cycles') is not None:      # another filter length for the same signal first: no state may leak into the next call
+                implutil.quiet(compute_shape_features, sig, c['fs'], tuple(c['f_range']), center_extrema=c['center'], find_extrema_kwargs=fek, n_cycles=3)
+            df = implutil.twice(lambda: implutil.quiet(compute_shape_features, sig, c['fs'], tuple(c['f_range']), center_extrema=c['center'], find_extrema_kwargs=fek, **kw),
+                                [sig, fek], 'compute_shape_features')
         else:
             df = implutil.quiet(compute_features, sig, c['fs'], tuple(c['f_range']), center_extrema=c['center'], find_extrema_kwargs=fek,
                                 threshold_kwargs={}, return_samples=True)
@@ -108,7 +111,7 @@ def evaluate(ctx, cases):
             bad = not p['err'].startswith('kernel')
             ctx.hist('outcome', 'raises' if bad else 'kernel-refused')
             # a raise is C01's subject unless it is the return_samples assertion of this module
-            out.append(Result(c, judge_ok=not p['err'].startswith('AssertionError'), corr_ok=True, sig=key, nontrivial=False, info=dict(impl_error=p['err'])))
+            out.append(Result(c, judge_ok=not (p['err'].startswith('AssertionError') or p['err'].startswith('HistoryDependence')), corr_ok=True, sig=key, nontrivial=False, info=dict(impl_error=p['err'])))
             continue
         model, spec = ans[p['j']], ans[p['j'] + 1]
         df = p['df']
